@@ -105,6 +105,27 @@ func c09Scenarios(tier string) []*Scenario {
 	H2 := Spec{Kind: KHedge, MaxHedges: 2, HDelay: D, Cancel: []Cond{{K: "result", V: 1}}}
 	add("retry(hedge)", []Spec{{Kind: KRetry, MaxRetries: 1}, H1}, []Out{{Err: E1, Dur: 3 * D}, {Err: E1, Dur: D}, {V: 1, Dur: 0}}, bound+1)
 	add("retry(hedge)", []Spec{{Kind: KRetry, MaxRetries: 1}, H2}, []Out{{Err: E1, Dur: D}, {Err: E1, Dur: D}, {Err: E1, Dur: 0}, {V: 1, Dur: D}}, bound)
+	// the hedge policy entered more than once within one execution, with conditions that leave some results non-cancellable
+	{
+		alpha := []Out{{V: 1}, {Err: E1}, {Err: E1, Dur: D}, {V: 0, Dur: 3 * D, Coop: true}}
+		n := 0
+		for _, cn := range condNames[1:] {
+			H := Spec{Kind: KHedge, MaxHedges: 1, HDelay: D, Cancel: conds[cn]}
+			for a := range alpha {
+				for b := range alpha {
+					for c := range alpha {
+						for d := range alpha {
+							n++
+							if tier != "thorough" && n%3 != 0 {
+								continue
+							}
+							add("retry(hedge)/"+cn, []Spec{{Kind: KRetry, MaxRetries: 1}, H}, []Out{alpha[a], alpha[b], alpha[c], alpha[d]}, bound)
+						}
+					}
+				}
+			}
+		}
+	}
 	add("timeout(hedge)", []Spec{{Kind: KTimeout, Limit: 2 * D}, H2}, []Out{{Err: E1, Dur: 3 * D, Coop: true}, {Err: E1, Dur: 3 * D, Coop: true}, {V: 1, Dur: 0}}, bound+1)
 	add("fallback(hedge)", []Spec{{Kind: KFallback, FbV: 9}, H1}, []Out{{Err: E1, Dur: 3 * D}, {Err: E1, Dur: D}}, bound+1)
 	add("hedge(retry)", []Spec{H1, {Kind: KRetry, MaxRetries: 1}}, []Out{{Err: E1, Dur: D}, {V: 1, Dur: D}, {V: 2, Dur: D}}, bound)
@@ -118,7 +139,7 @@ func init() {
 		Property:  "C09",
 		Technique: "stateless schedule exploration (deviation-bounded, happens-before state cache) of the real hedge executor and its attempt threads under a virtual clock, over every assignment of durations and outcomes to the attempts",
 		Rule: "one execution = one complete schedule of a hedged execution whose attempts take scripted durations (0, delay-1, delay, delay+1, 3*delay, until cancelled) and outcomes; " +
-			"every assignment for maxHedges 1 (and 2 over a smaller alphabet in the quick tier) x four cancel-condition configurations, plus placements inside retry/timeout/fallback; distinct = distinct observation logs",
+			"every assignment for maxHedges 1 (and 2 over a smaller alphabet in the quick tier) x four cancel-condition configurations, plus placements inside retry/timeout/fallback, including every four-outcome script over a four-element alphabet for a hedge entered twice by a retry under the three non-default cancel conditions; distinct = distinct observation logs",
 		Assume: []string{"sequentially consistent interleavings at synchronisation granularity", "fixed hedge delay; delay functions are exercised by C13-style enumeration only through the fixed builder",
 			"instrumentation by source rewriting preserves semantics (DESIGN.md §2)"},
 		Units: func(tier string) []Unit {
